@@ -263,14 +263,18 @@ def run(prog, tier) -> Result:
             return ("existing symbol directory entry overwritten", o.brief())
         return None
     run_entry(prog, res, "R17.4", mk.qualname, "symbol directory is insert-if-absent", mk_body, judge_absent, min_paths=3)
-    for state, owners in (("_item_def_map", {"DefinedItemRegistry.__init__": {"="}, "DefinedItemRegistry.register_item": {"[]="}}),
-                          ("_item_list", {"DefinedItemRegistry.__init__": {"="}, "DefinedItemRegistry.register_item": {"append"}})):
-        check_ownership(res, "R17.4", writes, state, owners, cg)
-    # local alias `item_list = self._item_list` in register_item: appends only
-    ri = prog.method("DefinedItemRegistry", "register_item")
-    bad_ops = [w for w in writes if w.func == "DefinedItemRegistry.register_item" and w.op not in ("append", "[]=", "=")]
-    res.ob("R17.4", "DefinedItemRegistry.register_item", "append / new key only", not bad_ops, repr(bad_ops),
-           sig="registry mutated non-monotonically", nontrivial=False)
+    # the registry's own state: whatever its constructor assigns; only the constructor and register_item write it
+    # (what register_item does to it - monotone, first wins - is decided by the evaluated scenario below)
+    reg_init = prog.method("DefinedItemRegistry", "__init__")
+    me_ = reg_init.node.args.args[0].arg
+    reg_fields = sorted({t.attr for n in ast.walk(reg_init.node) if isinstance(n, (ast.Assign, ast.AnnAssign))
+                         for t in (n.targets if isinstance(n, ast.Assign) else [n.target])
+                         if isinstance(t, ast.Attribute) and isinstance(t.value, ast.Name) and t.value.id == me_})
+    if not reg_fields:
+        raise AnalysisError("anchor vanished: fields assigned by DefinedItemRegistry.__init__")
+    for state in reg_fields:
+        check_ownership(res, "R17.4", writes, state,
+                        {"DefinedItemRegistry.__init__": {"="}, "DefinedItemRegistry.register_item": {"*"}}, cg)
     # ---- registry semantics, evaluated (not pattern-matched): buckets by normalised definition, first wins, monotone
     from ..engine_a import run_body
     from ..models import DictV
@@ -298,7 +302,7 @@ def run(prog, tier) -> Result:
             st.unit_defs["ua"] = term([(k, 1), (base, 1)])
             st.unit_defs["ub"] = term([(base, 1), (k, 1)])
             st.unit_defs["uc"] = term([(Num(RF.const(60), "dec"), 1), (base, 1)])
-            reg = ObjV(reg_ci, "registry", {"_unique_items": BoolV(unique), "_item_def_map": DictV(), "_item_list": ListV([])})
+            reg = I.models.instantiate(reg_ci, [], {"unique_items": BoolV(unique)}, None)
             ri_ = prog.method("DefinedItemRegistry", "register_item")
             gi_ = prog.method("DefinedItemRegistry", "__getitem__")
             i1 = I.call_function(ri_, [reg, ua], {})
@@ -365,7 +369,7 @@ def run(prog, tier) -> Result:
 
     # nothing anywhere deletes from or clears a directory
     destructive = [w for w in writes if w.op in ("del", "clear", "pop", "popitem", "remove") and
-                   w.state in (sym_names | {"_item_def_map", "_item_list", "_unit_map"})]
+                   w.state in (sym_names | set(reg_fields) | {"_unit_map"})]
     res.ob("R17.4", "quantity", "no deletion from a directory", not destructive, repr(destructive),
            sig="directory entry deleted")
 
